@@ -346,7 +346,7 @@ func num(v interface{}) (float64, bool) {
 // Std is the standard deterministic function set:
 // filter functions  twice (numbers ×2, strings doubled, arrays doubled, error otherwise),
 // ident, wrap (v -> [v]), nostr (error on strings, identity otherwise);
-// aggregates  count, first (error on empty), echo (a copy of its argument), sum (error unless all numbers).
+// aggregates  count, first (error on empty), echo (a copy of its argument), keep (its argument itself), sum (error unless all numbers).
 func Std() FuncSet {
 	return FuncSet{
 		Filter: map[string]func(interface{}) (interface{}, error){
@@ -380,6 +380,9 @@ func Std() FuncSet {
 				return v[0], nil
 			},
 			"echo": func(v []interface{}) (interface{}, error) { return append([]interface{}{}, v...), nil },
+			// keep returns the very slice it was given: if that slice were a recycled scratch buffer of the
+			// library, the result would change under the caller's feet (and show the hook's poison)
+			"keep": func(v []interface{}) (interface{}, error) { return v, nil },
 			"sum": func(v []interface{}) (interface{}, error) {
 				s := 0.0
 				for _, x := range v {
